@@ -55,7 +55,7 @@ template <template <class...> class Graph, typename EdgeLabel>
 void writeTextEdgeList(
     const Graph<EdgeLabel> &graph, const std::string &fileName,
     const std::function<std::string(const EdgeLabel &)> toString =
-        std::to_string
+        [](const EdgeLabel &label) { return std::to_string(label); }
 );
 
 template <template <class...> class Graph, typename EdgeLabel>
